@@ -14,14 +14,23 @@ import (
 	"verif/harness/hx"
 )
 
+// node: a regular file (content id), a directory, or a symbolic link. The destination of a link
+// is written relative to the case directory ("outside/gen", "out/da", "out" = the target itself,
+// "nowhere" = dangling) and materialised as an absolute path, or is literally "." / ".." (a
+// relative link to the directory the link lives in / its parent).
 type node struct {
 	name     string
 	dir      bool
+	link     bool
+	dest     string
 	content  int
 	children []*node
 }
 
 func (n *node) sexp() string {
+	if n.link {
+		return fmt.Sprintf("(l %s %s)", n.name, n.dest)
+	}
 	if !n.dir {
 		return fmt.Sprintf("(f %s %d)", n.name, n.content)
 	}
@@ -35,6 +44,9 @@ func (n *node) sexp() string {
 }
 
 func nodeOfSexp(s *hx.Sexp) *node {
+	if s.List[0].Atom == "l" {
+		return &node{name: s.List[1].Atom, link: true, dest: s.List[2].Atom}
+	}
 	if s.List[0].Atom == "f" {
 		c, _ := strconv.Atoi(s.List[2].Atom)
 		return &node{name: s.List[1].Atom, content: c}
@@ -55,8 +67,31 @@ func sortTree(n *node) {
 	}
 }
 
-func materialise(base string, n *node) error {
+func relativeDest(dest string) bool {
+	return dest == "." || dest == ".." || strings.HasPrefix(dest, "./") || strings.HasPrefix(dest, "../")
+}
+
+// linkText: what is handed to os.Symlink for a destination
+func linkText(caseDir, dest string) string {
+	if relativeDest(dest) {
+		return dest
+	}
+	return filepath.Join(caseDir, dest)
+}
+
+// destOfText: inverse of linkText, so that a link that still points where it pointed reads back equal
+func destOfText(caseDir, text string) string {
+	if strings.HasPrefix(text, caseDir+string(filepath.Separator)) {
+		return filepath.ToSlash(text[len(caseDir)+1:])
+	}
+	return text
+}
+
+func materialise(caseDir, base string, n *node) error {
 	p := filepath.Join(base, n.name)
+	if n.link {
+		return os.Symlink(linkText(caseDir, n.dest), p)
+	}
 	if !n.dir {
 		return os.WriteFile(p, []byte(strconv.Itoa(n.content)), 0o644)
 	}
@@ -64,20 +99,28 @@ func materialise(base string, n *node) error {
 		return err
 	}
 	for _, c := range n.children {
-		if err := materialise(p, c); err != nil {
+		if err := materialise(caseDir, p, c); err != nil {
 			return err
 		}
 	}
 	return nil
 }
 
-func readBack(path, name string) (*node, error) {
+// readBack lists what is at path without following any link (Lstat, Readlink)
+func readBack(caseDir, path, name string) (*node, error) {
 	st, err := os.Lstat(path)
 	if err != nil {
 		if os.IsNotExist(err) {
 			return nil, nil
 		}
 		return nil, err
+	}
+	if st.Mode()&os.ModeSymlink != 0 {
+		text, err := os.Readlink(path)
+		if err != nil {
+			return nil, err
+		}
+		return &node{name: name, link: true, dest: destOfText(caseDir, text)}, nil
 	}
 	if !st.IsDir() {
 		data, err := os.ReadFile(path)
@@ -96,7 +139,7 @@ func readBack(path, name string) (*node, error) {
 	}
 	n := &node{name: name, dir: true}
 	for _, e := range ents {
-		c, err := readBack(filepath.Join(path, e.Name()), e.Name())
+		c, err := readBack(caseDir, filepath.Join(path, e.Name()), e.Name())
 		if err != nil {
 			return nil, err
 		}
@@ -105,18 +148,26 @@ func readBack(path, name string) (*node, error) {
 	return n, nil
 }
 
+// fileAt: an occurrence of a non-directory entry; for a symbolic link `link` is set and dest is
+// where it points
 type fileAt struct {
 	path    string
 	name    string
 	content int
+	link    bool
+	dest    string
 }
 
 func files(n *node, prefix string, out *[]fileAt) {
 	if n == nil {
 		return
 	}
+	if n.link {
+		*out = append(*out, fileAt{path: prefix + "/" + n.name, name: n.name, link: true, dest: n.dest})
+		return
+	}
 	if !n.dir {
-		*out = append(*out, fileAt{prefix + "/" + n.name, n.name, n.content})
+		*out = append(*out, fileAt{path: prefix + "/" + n.name, name: n.name, content: n.content})
 		return
 	}
 	for _, c := range n.children {
@@ -135,8 +186,6 @@ func emptyDirs(n *node, root bool, out *[]string, prefix string) {
 		emptyDirs(c, false, out, prefix+"/"+n.name)
 	}
 }
-
-
 
 func owned(name string) bool {
 	return strings.HasSuffix(name, utils.GeneratedFileSuffix) || name == manifestName
@@ -199,6 +248,136 @@ func genChildren(rng *rand.Rand, depth int, maxEntries int, nextID *int) []*node
 	return out
 }
 
+// outsideTree: the sibling of the target, "another project": a package of generated-looking files
+// with a manifest and a hand-written file, a package holding generated files only (it would end up
+// empty, and be removed, if it were cleaned), and loose files. Links in the target point here.
+func outsideTree(nextID *int) *node {
+	mk := func(name string) *node { *nextID++; return &node{name: name, content: *nextID} }
+	t := &node{name: "outside", dir: true, children: []*node{
+		{name: "gen", dir: true, children: []*node{mk("Bar" + utils.GeneratedFileSuffix), mk("Bar.go"), mk(manifestName),
+			{name: "sub", dir: true, children: []*node{mk("Deep" + utils.GeneratedFileSuffix)}}}},
+		{name: "onlygen", dir: true, children: []*node{mk("Baz" + utils.GeneratedFileSuffix)}},
+		mk("keep.txt"), mk("top" + utils.GeneratedFileSuffix), mk(manifestName),
+	}}
+	sortTree(t)
+	return t
+}
+
+type dirAt struct {
+	n    *node
+	path string // relative to the case directory, "out/…"
+	up   []*dirAt
+}
+
+func dirsOf(n *node, path string, up []*dirAt, out *[]*dirAt) {
+	d := &dirAt{n: n, path: path, up: up}
+	*out = append(*out, d)
+	for _, c := range n.children {
+		if c.dir {
+			dirsOf(c, path+"/"+c.name, append(append([]*dirAt{}, up...), d), out)
+		}
+	}
+}
+
+// addLinks puts symbolic links into a tree of files and directories: to a directory inside the
+// target, to directories and files outside it, to an ancestor, to nothing; under plain names, names
+// with the generated suffix and the manifest name. Were links followed, the walk must still end:
+// a directory linked to from inside the target (and everything below it) holds no link, and at
+// most one link per tree points to an ancestor of its own directory, so a walk that follows links
+// runs along one chain until the kernel refuses (ELOOP) instead of branching.
+func addLinks(rng *rand.Rand, tree *node) {
+	n := 0
+	switch rng.Intn(6) {
+	case 0, 1:
+		return
+	case 2, 3:
+		n = 1
+	case 4:
+		n = 2
+	default:
+		n = 3 + rng.Intn(2)
+	}
+	var dirs []*dirAt
+	dirsOf(tree, "out", nil, &dirs)
+	noHost := map[*node]bool{}
+	var inDests []*dirAt
+	if len(dirs) > 1 && rng.Intn(2) == 0 {
+		d := dirs[1+rng.Intn(len(dirs)-1)]
+		inDests = append(inDests, d)
+		var sub []*dirAt
+		dirsOf(d.n, d.path, nil, &sub)
+		for _, x := range sub {
+			noHost[x.n] = true
+		}
+	}
+	var hosts []*dirAt
+	for _, d := range dirs {
+		if !noHost[d.n] {
+			hosts = append(hosts, d)
+		}
+	}
+	upUsed := false
+	for i := 0; i < n; i++ {
+		h := hosts[rng.Intn(len(hosts))]
+		if rng.Intn(3) == 0 {
+			h = hosts[0] // the target itself
+		}
+		tag := string(rune('a' + rng.Intn(3)))
+		var name string
+		switch rng.Intn(8) {
+		case 0, 1, 2:
+			name = "l" + tag
+		case 3, 4:
+			name = "l" + tag + utils.GeneratedFileSuffix
+		case 5:
+			name = "l" + tag + ".go"
+		case 6:
+			name = manifestName
+		default:
+			name = utils.GeneratedFileSuffix
+		}
+		dup := false
+		for _, c := range h.n.children {
+			if c.name == name {
+				dup = true
+			}
+		}
+		if dup {
+			continue
+		}
+		var dest string
+		switch k := rng.Intn(12); {
+		case k <= 1:
+			dest = "outside/gen"
+		case k == 2:
+			dest = "outside/onlygen"
+		case k == 3:
+			dest = "outside"
+		case k == 4:
+			dest = []string{"outside/gen/Bar" + utils.GeneratedFileSuffix, "outside/keep.txt", "outside/gen/" + manifestName}[rng.Intn(3)]
+		case k == 5:
+			dest = "nowhere"
+		case k <= 7 && len(inDests) > 0:
+			dest = inDests[0].path
+		case k <= 9 && !upUsed:
+			upUsed = true
+			switch {
+			case len(h.up) > 0 && rng.Intn(2) == 0:
+				dest = h.up[rng.Intn(len(h.up))].path // absolute link to an ancestor
+			case len(h.up) > 0 && rng.Intn(2) == 0:
+				dest = ".."
+			case rng.Intn(2) == 0:
+				dest = "."
+			default:
+				dest = h.path // absolute link to the directory it is in
+			}
+		default:
+			dest = "outside/gen/sub"
+		}
+		h.n.children = append(h.n.children, &node{name: name, link: true, dest: dest})
+	}
+}
+
 // blockedTree: some directory named like the manifest is non-empty — the one situation in which
 // the cleaner legitimately fails on a well-behaved filesystem.
 func blockedTree(n *node) bool {
@@ -217,6 +396,29 @@ func blockedTree(n *node) bool {
 }
 
 func kindsOf(n *node, r *hx.Result) {
+	if n.link {
+		to := "dir-outside"
+		switch {
+		case n.dest == "nowhere":
+			to = "nothing"
+		case n.dest == "." || n.dest == ".." || n.dest == "out":
+			to = "ancestor"
+		case strings.HasPrefix(n.dest, "out/"):
+			to = "dir-inside-or-ancestor"
+		case strings.HasSuffix(n.dest, utils.GeneratedFileSuffix) || strings.HasSuffix(n.dest, ".txt") || strings.HasSuffix(n.dest, manifestName):
+			to = "file-outside"
+		}
+		r.Count("entry:link-to-" + to)
+		switch {
+		case n.name == manifestName:
+			r.Count("linkname:manifest")
+		case strings.HasSuffix(n.name, utils.GeneratedFileSuffix):
+			r.Count("linkname:generated-suffix")
+		default:
+			r.Count("linkname:foreign")
+		}
+		return
+	}
 	if !n.dir {
 		switch {
 		case n.name == manifestName:
@@ -250,17 +452,27 @@ type Config struct {
 
 // runOne materialises the tree (nil = missing target), cleans it with the real function and
 // checks D (the property itself) and K (agreement with the Lean model).
-func runOne(cfg Config, r *hx.Result, scratch string, tree *node, dot bool) {
+//
+// outside (nil = none, the op format of older replays) is materialised beside the target as
+// <case>/outside and listed again afterwards: nothing in it may change.
+func runOne(cfg Config, r *hx.Result, scratch string, tree, outside *node, dot bool) {
 	caseDir, err := os.MkdirTemp(scratch, "case")
 	if err != nil {
 		panic(err)
 	}
 	defer os.RemoveAll(caseDir)
 	rootName := "out"
+	if outside != nil {
+		outside.name = "outside"
+		sortTree(outside)
+		if err := materialise(caseDir, caseDir, outside); err != nil {
+			panic(err)
+		}
+	}
 	if tree != nil {
 		tree.name = rootName
 		sortTree(tree)
-		if err := materialise(caseDir, tree); err != nil {
+		if err := materialise(caseDir, caseDir, tree); err != nil {
 			panic(err)
 		}
 	}
@@ -273,6 +485,24 @@ func runOne(cfg Config, r *hx.Result, scratch string, tree *node, dot bool) {
 		dotS = "1"
 	}
 	op := fmt.Sprintf("clean %s %s %s", cfg.Module, dotS, treeS)
+	outsideS := ""
+	if outside != nil {
+		outsideS = outside.sexp()
+		op += " " + outsideS
+	}
+	listOutside := func() string {
+		if outside == nil {
+			return ""
+		}
+		o, err := readBack(caseDir, filepath.Join(caseDir, "outside"), "outside")
+		if err != nil {
+			panic(err)
+		}
+		if o == nil {
+			return "-"
+		}
+		return o.sexp()
+	}
 
 	target := filepath.Join(caseDir, rootName)
 	var implErr error
@@ -288,7 +518,7 @@ func runOne(cfg Config, r *hx.Result, scratch string, tree *node, dot bool) {
 	} else {
 		panicked, pv = hx.Recover(func() { implErr = utils.CleanTargetDir(target) })
 	}
-	after, err := readBack(target, rootName)
+	after, err := readBack(caseDir, target, rootName)
 	if err != nil {
 		panic(err)
 	}
@@ -296,9 +526,13 @@ func runOne(cfg Config, r *hx.Result, scratch string, tree *node, dot bool) {
 	if after != nil {
 		afterS = after.sexp()
 	}
+	outsideAfterS := listOutside()
 	implS := "ok " + afterS
 	if implErr != nil {
 		implS = "err " + afterS
+	}
+	if outside != nil {
+		implS += " " + outsideAfterS
 	}
 	if panicked {
 		implS = fmt.Sprintf("panic %v", pv)
@@ -317,7 +551,7 @@ func runOne(cfg Config, r *hx.Result, scratch string, tree *node, dot bool) {
 	} else {
 		r.Count("outcome:ok")
 	}
-	if treeS != afterS {
+	if treeS != afterS || outsideS != outsideAfterS {
 		r.Distinctive(op)
 	}
 
@@ -339,9 +573,17 @@ func runOne(cfg Config, r *hx.Result, scratch string, tree *node, dot bool) {
 	if panicked {
 		fail("C20 panic", "no panic")
 	}
+	// nothing beside the target is touched, wherever the links in the target point
+	if outsideAfterS != outsideS {
+		fail("C20 something outside the target was removed or changed", "the directory beside the target is left as it was: "+outsideS)
+	}
 	for _, f := range before {
 		if !owned(f.name) && !nowSet[f] {
-			fail("C20 foreign file lost or changed", "file "+f.path+" kept byte for byte")
+			if f.link {
+				fail("C20 foreign symbolic link lost or changed", "link "+f.path+" -> "+f.dest+" kept (a link is not a generated file unless its name says so, and is never followed)")
+			} else {
+				fail("C20 foreign file lost or changed", "file "+f.path+" kept byte for byte")
+			}
 		}
 	}
 	for _, f := range now {
@@ -380,13 +622,16 @@ func runOne(cfg Config, r *hx.Result, scratch string, tree *node, dot bool) {
 			} else {
 				err2 = utils.CleanTargetDir(target)
 			}
-			again, _ := readBack(target, rootName)
+			again, _ := readBack(caseDir, target, rootName)
 			againS := "-"
 			if again != nil {
 				againS = again.sexp()
 			}
 			if err2 != nil || againS != afterS {
 				fail("C20 not idempotent", "second clean is a no-op, got "+againS)
+			}
+			if o2 := listOutside(); o2 != outsideS {
+				fail("C20 something outside the target was removed or changed", "the directory beside the target is left as it was by a second clean as well: "+outsideS)
 			}
 		}
 	}
@@ -403,45 +648,77 @@ func runOne(cfg Config, r *hx.Result, scratch string, tree *node, dot bool) {
 
 func Run(cfg Config) *hx.Result {
 	r := hx.NewResult("C20", cfg.Module, cfg.Seed, cfg.Tier)
-	r.Rule = "directory trees over {generated file, manifest, user .go, other file, empty dir, nested dir, manifest-named dir, '.gr.go' alone, '*.gr.go.bak', dir named *.gr.go}; materialised in a scratch dir, cleaned by the real CleanTargetDir, re-listed and compared; a case is non-trivial when cleaning changes the tree; distinct by op line"
+	r.Rule = "directory trees over {generated file, manifest, user .go, other file, empty dir, nested dir, manifest-named dir, '.gr.go' alone, '*.gr.go.bak', dir named *.gr.go, symbolic link (to a directory inside the target, to a directory or a file outside it, to an ancestor, to nothing; named plainly, with the generated suffix, like the manifest)}; materialised in a scratch dir next to an 'outside' directory of generated-looking files, cleaned by the real CleanTargetDir, both re-listed without following links and compared; a case is non-trivial when cleaning changes something; distinct by op line"
 	scratch, err := os.MkdirTemp("", "verif-c20-")
 	if err != nil {
 		panic(err)
 	}
 	defer os.RemoveAll(scratch)
+	if resolved, err := filepath.EvalSymlinks(scratch); err == nil {
+		scratch = resolved
+	}
 	rng := hx.Rng(cfg.Seed, "c20")
 	if len(cfg.Replay) > 0 {
 		for _, line := range cfg.Replay {
 			xs, err := hx.ParseLine(line)
-			if err != nil || len(xs) != 4 || xs[0].Atom != "clean" {
+			if err != nil || (len(xs) != 4 && len(xs) != 5) || xs[0].Atom != "clean" {
 				panic("c20: cannot replay " + line)
 			}
-			var t *node
+			var t, o *node
 			if xs[3].IsList {
 				t = nodeOfSexp(xs[3])
 			}
-			runOne(cfg, r, scratch, t, xs[2].Atom == "1")
+			if len(xs) == 5 && xs[4].IsList {
+				o = nodeOfSexp(xs[4])
+			}
+			runOne(cfg, r, scratch, t, o, xs[2].Atom == "1")
 		}
 		return r
 	}
 
-	// fixed corpus first: missing target, empty target, the property's named situations
-	runOne(cfg, r, scratch, nil, false)
-	runOne(cfg, r, scratch, &node{dir: true}, false)
-	runOne(cfg, r, scratch, &node{dir: true}, true)
 	id := 0
 	mk := func(name string) *node { id++; return &node{name: name, content: id} }
+	ln := func(name, dest string) *node { return &node{name: name, link: true, dest: dest} }
+	dir := func(name string, cs ...*node) *node { return &node{name: name, dir: true, children: cs} }
+	gs := utils.GeneratedFileSuffix
+
+	// fixed corpus first: missing target, empty target, the property's named situations
+	runOne(cfg, r, scratch, nil, outsideTree(&id), false)
+	runOne(cfg, r, scratch, &node{dir: true}, outsideTree(&id), false)
+	runOne(cfg, r, scratch, &node{dir: true}, outsideTree(&id), true)
 	corpus := []*node{
-		{dir: true, children: []*node{mk(manifestName), mk("x" + utils.GeneratedFileSuffix)}},
-		{dir: true, children: []*node{mk("custom.go"), mk("x" + utils.GeneratedFileSuffix)}},
-		{dir: true, children: []*node{{name: "a", dir: true, children: []*node{{name: "b", dir: true, children: []*node{{name: "c", dir: true}}}}}}},
-		{dir: true, children: []*node{{name: manifestName, dir: true, children: []*node{mk("u.txt")}}, mk("z" + utils.GeneratedFileSuffix)}},
-		{dir: true, children: []*node{{name: "a", dir: true, children: []*node{{name: manifestName, dir: true, children: []*node{mk("y" + utils.GeneratedFileSuffix)}}}}, mk("z" + utils.GeneratedFileSuffix), mk(manifestName)}},
-		{dir: true, children: []*node{{name: manifestName, dir: true}}},
+		dir("", mk(manifestName), mk("x"+gs)),
+		dir("", mk("custom.go"), mk("x"+gs)),
+		dir("", dir("a", dir("b", dir("c")))),
+		dir("", dir(manifestName, mk("u.txt")), mk("z"+gs)),
+		dir("", dir("a", dir(manifestName, mk("y"+gs))), mk("z"+gs), mk(manifestName)),
+		dir("", dir(manifestName)),
+		// symbolic links: another project's bindings made reachable from the output directory
+		dir("", dir("pkg", mk("Foo"+gs), mk("custom.go"), ln("onlygen", "outside/onlygen")), ln("othergen", "outside/gen")),
+		// a directory that holds nothing but a link to a directory of generated files
+		dir("", dir("pkg", mk("Foo"+gs), ln("onlygen", "outside/onlygen"))),
+		// links whose own names look generated: unlinked, whatever they point to
+		dir("", ln("l"+gs, "outside/gen"), ln(manifestName, "outside/gen"), mk("keep.go")),
+		dir("", dir("p", ln("l"+gs, "outside/gen/Bar"+gs), ln("m"+gs, "nowhere"), ln(gs, "outside")), mk("keep.go")),
+		// dangling links and links to files under foreign names: kept
+		dir("", ln("gone", "nowhere"), ln("bar", "outside/gen/Bar"+gs), ln("txt", "outside/keep.txt"), mk("a"+gs)),
+		// a link to a directory inside the target that cleaning empties
+		dir("", dir("da", mk("a"+gs)), ln("lda", "out/da"), mk("keep.go")),
+		dir("", dir("da", mk("a"+gs), mk("a.go")), ln("lda", "out/da")),
+		dir("", dir("da", dir("db", mk("a"+gs))), dir("dc", ln("ldb", "out/da/db")), mk(manifestName)),
+		// links to an ancestor: the target itself, the directory the link is in, its parent
+		dir("", ln("self", "out"), mk("a"+gs), mk("a.go")),
+		dir("", dir("da", ln("here", "."), mk("a"+gs))),
+		dir("", dir("da", ln("up", ".."), mk("a.go")), mk("a"+gs)),
+		dir("", dir("da", dir("db", ln("top"+gs, "out"))), mk("a"+gs)),
+		dir("", dir("da", dir("db", ln("top", "out"), mk("b"+gs))), mk("a"+gs)),
+		// the whole outside directory linked in, next to a blocked manifest-named directory
+		dir("", ln("all", "outside"), dir("pkg", ln("sub", "outside/gen/sub"))),
+		dir("", ln("all", "outside"), dir(manifestName, mk("u.txt"))),
 	}
 	for _, t := range corpus {
-		runOne(cfg, r, scratch, t, false)
-		runOne(cfg, r, scratch, t, true)
+		runOne(cfg, r, scratch, t, outsideTree(&id), false)
+		runOne(cfg, r, scratch, t, outsideTree(&id), true)
 	}
 
 	n := 400
@@ -452,7 +729,8 @@ func Run(cfg Config) *hx.Result {
 		depth := 1 + rng.Intn(3)
 		nid := 0
 		t := &node{dir: true, children: genChildren(rng, depth, 3+rng.Intn(2), &nid)}
-		runOne(cfg, r, scratch, t, rng.Intn(5) == 0)
+		addLinks(rng, t)
+		runOne(cfg, r, scratch, t, outsideTree(&nid), rng.Intn(5) == 0)
 	}
 	return r
 }
